@@ -33,6 +33,23 @@ def cases(tier, seed):
     for _ in range(12 if tier == "quick" else 150):
         ones = rng.sample(range(16), 8)
         yield {"algo": "dj", "n": 4, "truth": [1 if x in ones else 0 for x in range(16)]}
+    # balanced by construction: one input bit xor-ed with a nested compound of the others (the compiler then allocates the
+    # result qubit before some ancilla, so it is not the last qubit)
+    comps = ["(a[{1}] or (a[{2}] and a[{3}]))", "(a[{1}] and (a[{2}] or a[{3}]))", "((a[{1}] and a[{2}]) or (a[{2}] and not a[{3}]))", "(a[{1}] or a[{2}])", "((a[{1}] ^ a[{2}]) and a[{3}])"]
+    for n in (3, 4):
+        for k, tmpl in enumerate(comps):
+            ix = list(range(n))
+            rng.shuffle(ix)
+            ix = (ix * 2)[:4]
+            body = tmpl.format(*ix)
+            expr = f"a[{ix[0]}] ^ {body}" if k % 2 == 0 else f"{body} ^ a[{ix[0]}]"
+            if str(ix[0]) in [c for c in body if c.isdigit()]:
+                continue
+            truth = []
+            for x in range(1 << n):
+                a = [bool((x >> i) & 1) for i in range(n)]  # noqa: F841
+                truth.append(1 if eval(expr.replace("^", "!="), {"a": a}) else 0)
+            yield {"algo": "dj", "n": n, "truth": truth, "extra_form": f"def f(a: Qint[{n}]) -> bool:\n    return {expr}\n"}
     yield {"algo": "dj", "n": 4, "truth": [0] * 16}
     yield {"algo": "dj", "n": 4, "truth": [1] * 16}
     # Bernstein-Vazirani
@@ -141,6 +158,8 @@ def check(case):
 
     if algo == "dj":
         forms = dj_forms(n, case["truth"])
+        if case.get("extra_form"):
+            forms.append(("xor_compound", case["extra_form"], f"Qint{n}"))
     elif algo == "bv":
         forms = bv_forms(n, case["s"])
     else:
